@@ -14,6 +14,8 @@ pub mod nd;
 pub mod util;
 
 pub mod c02;
+pub mod c10;
+pub mod c14;
 pub mod c20;
 
 #[cfg(not(kani))]
